@@ -87,6 +87,33 @@ pub fn run(ctx: &mut Ctx) {
             case(ctx, &parser, &format!("else-interrupt:{}", crate::proto::hex(&want)), t, &d);
         }
     }
+    // collections whose elements are (or end in) nil: nil is an element like any other -- it is selected,
+    // counted and visited; a window larger than the collection does not invent or lose one
+    {
+        let n_ = Value::Nil;
+        let s_ = |t: &str| Value::scalar(t.to_string());
+        let arrays: Vec<Vec<Value>> = vec![
+            vec![s_("a"), s_("b"), n_.clone()], vec![n_.clone()], vec![n_.clone(), n_.clone()], vec![Value::scalar(1i64), n_.clone()],
+            vec![n_.clone(), Value::scalar(1i64), n_.clone()], vec![n_.clone(), s_("z")], vec![Value::scalar(false), n_.clone(), Value::scalar(false)],
+        ];
+        for arr in arrays {
+            let mut d = Object::new();
+            d.insert("a".into(), Value::Array(arr.clone()));
+            let len = arr.len() as i64;
+            for off in [None, Some(0i64), Some(1), Some(2)] {
+                for lim in [None, Some(0i64), Some(1), Some(len), Some(len + 1), Some(len + 3)] {
+                    for rev in [false, true] {
+                        let t = vec![Node::For { x: "x".into(), rng: RangeE::Arr(var("a")), limit: opt_lit(lim), offset: opt_lit(off), rev, body: fields_body("forloop", FOR_FIELDS, "x"), els: Some(vec![text("EMPTY")]) }];
+                        case(ctx, &parser, &format!("for-array:{}:{}:{}", on(&off), on(&lim), rev as u8), t, &d);
+                    }
+                    for cols in [None, Some(2i64)] {
+                        let t = vec![Node::TableRow { x: "x".into(), rng: RangeE::Arr(var("a")), cols: opt_lit(cols), limit: opt_lit(lim), offset: opt_lit(off), body: fields_body("tablerow", TR_FIELDS, "x") }];
+                        case(ctx, &parser, &format!("tablerow:{}:{}:{}", on(&off), on(&lim), on(&cols)), t, &d);
+                    }
+                }
+            }
+        }
+    }
     // `break` / `continue` reached inside an INCLUDED partial (include shares the caller's state) act on
     // the for loop of the including template, at every iteration index and at both nesting levels
     {
